@@ -19,6 +19,16 @@ import (
 
 const c12Watchdog = 8 * time.Second
 
+// nilWrap is a filter node that claims to wrap another node and has none.
+type nilWrap struct{}
+
+func (*nilWrap) Process(_ context.Context, e *eventlogger.Event) (*eventlogger.Event, error) {
+	return e, nil
+}
+func (*nilWrap) Reopen() error              { return nil }
+func (*nilWrap) Type() eventlogger.NodeType { return eventlogger.NodeTypeFilter }
+func (*nilWrap) Unwrap() eventlogger.Node   { return nil }
+
 // c12Crowd: number of Sends in flight at once in the "crowd" scenarios
 const c12Crowd = 200
 
@@ -408,6 +418,16 @@ func runC12Scenario(run *rt.Run, sc c12Scenario) {
 			}
 			b.Send(ctx, "to", p)
 		})
+	case "nil-unwrap":
+		// a registered node that is a NodeUnwrapper with nothing inside (Unwrap returns nil) and no Close of its own:
+		// there is nothing to close, and the removal calls return
+		must(b.RegisterNode("nw", &nilWrap{}))
+		must(b.RegisterNode("nw2", &nilWrap{}))
+		must(b.RegisterPipeline(eventlogger.Pipeline{PipelineID: "pnw", EventType: "tnw", NodeIDs: []eventlogger.NodeID{"nw2", "im", "ik"}}))
+		ok = underWatchdog(run, sc, "RemoveNode(wrapper with nothing to unwrap)", "eventlogger.(*Broker).RemoveNode", func() { b.RemoveNode(ctx, "nw") })
+		if ok {
+			ok = underWatchdog(run, sc, "RemovePipelineAndNodes(wrapper with nothing to unwrap)", "eventlogger.(*Broker).RemovePipelineAndNodes", func() { b.RemovePipelineAndNodes(ctx, "tnw", "pnw") })
+		}
 	case "crowd":
 		ok = underWatchdog(run, sc, fmt.Sprintf("%d concurrent Sends through a node that sends again", c12Crowd), "eventlogger.(*Broker).Send", func() {
 			var wg sync.WaitGroup
@@ -588,6 +608,7 @@ func TestC12(t *testing.T) {
 	for _, wk := range []string{"-", "", "setthr", "pipe", "reopen"} {
 		scs = append(scs, c12Scenario{Op: "send", Callback: "process", Writer: wk != "-", WKind: strings.TrimPrefix(wk, "-"), SameType: true})
 	}
+	scs = append(scs, c12Scenario{Op: "nil-unwrap", Callback: "none"}, c12Scenario{Op: "nil-unwrap", Callback: "none", Writer: true})
 	// many Sends in flight at once, each of which sends again from its node
 	scs = append(scs, c12Scenario{Op: "crowd", Callback: "process"}, c12Scenario{Op: "crowd", Callback: "process", SameType: true})
 	// the node that is in the middle of a callback is registered again
